@@ -299,7 +299,55 @@ def check_detector(rec, inp):
     return len(cpts) >= 1 or len(ref) >= 1, info
 
 
-CHECKS = {"intervals": check_intervals, "greedy": check_greedy_kernel, "run": check_run, "detector": check_detector}
+def check_long_series(rec, inp):
+    """One LONG series with max_interval_length = n (intervals with thousands of admissible splits): every row of the scores table against a
+    vectorised CUSUM over ALL admissible splits, and the reported changepoints against the greedy selection on that table.  inp: {"n", "m", "seed"}."""
+    from skchange.change_detectors import SeededBinarySegmentation
+    from skchange.change_scores import CUSUM
+    n, m = int(inp["n"]), int(inp["m"])
+    rng = np.random.default_rng(int(inp["seed"]))
+    x = rng.normal(size=n)
+    for c in sorted(rng.choice(np.arange(100, n - 100), size=6, replace=False)):
+        x[c:] += rng.choice([-1.0, 0.8, 1.2])
+    X = x.reshape(-1, 1)
+    det, err = O.attempt(lambda: SeededBinarySegmentation(change_score=CUSUM(), min_segment_length=m, max_interval_length=n, threshold_scale=2.0).fit(X), seconds=120.0)
+    if err is None:
+        res, err = O.attempt(lambda: [int(c) for c in det.predict(X)["ilocs"]], seconds=120.0)
+    if err is not None:
+        rec.violation("SeededBinarySegmentation:long-series:raises", f"SeededBinarySegmentation(CUSUM, m={m}, M={n}) on n={n} raised {err!r}", "C07.detector", inp)
+        return True
+    tb, th = det.scores, float(det.threshold_)
+    S = np.concatenate(([0.0], np.cumsum(x)))
+    starts, ends = _ints(tb["start"].to_numpy()), _ints(tb["end"].to_numpy())
+    amoc, maxi = [], []
+    for s, e, rk, rs in zip(starts, ends, tb["argmax_cpt"].to_numpy(), tb["score"].to_numpy()):
+        k = np.arange(s + m, e - m + 1)
+        if not len(k):
+            continue
+        nl, nr = (k - s).astype(float), (e - k).astype(float)
+        sc = np.sqrt(nl * nr / (nl + nr)) * np.abs((S[k] - S[s]) / nl - (S[e] - S[k]) / nr)
+        best = float(sc.max())
+        if not close(float(rs), best) or not (s + m <= int(rk) <= e - m and close(float(sc[int(rk) - s - m]), best)):
+            rec.violation("run_seeded_binseg:score:long-series", f"SeededBinarySegmentation(CUSUM, m={m}, M={n}) on n={n}: interval [{s},{e}) reports score {float(rs)!r} at "
+                          f"split {int(rk)}; the maximum of the change score over its {len(k)} admissible splits is {best!r} at {int(k[int(np.argmax(sc))])}", "C07.table.score", inp)
+            return True
+        amoc.append(best)
+        maxi.append(int(rk))
+    # greedy selection on the (verified) table
+    alive = np.ones(len(amoc), dtype=bool)
+    a, mx, st, en = np.array(amoc), np.array(maxi), np.array(starts[:len(amoc)]), np.array(ends[:len(amoc)])
+    ref = []
+    while alive.any() and a[alive].max() > th:
+        i = int(np.flatnonzero(alive)[np.argmax(a[alive])])
+        ref.append(int(mx[i]))
+        alive &= ~((st <= mx[i]) & (mx[i] <= en - 1))
+    if sorted(ref) != sorted(res):
+        rec.violation("SeededBinarySegmentation:long-series:changepoints", f"SeededBinarySegmentation(CUSUM, m={m}, M={n}) on n={n}: reported {sorted(res)}, the greedy "
+                      f"selection on the scores table gives {sorted(ref)}", "C07.detector", inp)
+    return True
+
+
+CHECKS = {"long": lambda rec, inp: check_long_series(rec, inp), "intervals": check_intervals, "greedy": check_greedy_kernel, "run": check_run, "detector": check_detector}
 
 
 # ------------------------------------------------------------------------------------------------------------------
@@ -321,6 +369,9 @@ def run(tier="quick", seed=0, repo="/repo"):
     bound = {}
     try:
         _enumerate(rec, tier, seed, bound)
+        inp = {"check": "long", "n": 3200, "m": 5, "seed": seed}
+        rec.case(("long", 3200, 5), check_long_series(rec, inp), None)
+        bound["text"] = bound.get("text", "") + "; one series of n = 3200 with max_interval_length = n (CUSUM): every table row against the vectorised maximum over all splits"
     except O.Abort:
         bound["text"] = bound.get("text", "") + " [enumeration stopped early: calls into the real code did not terminate]"
     kinds = {}
